@@ -85,7 +85,30 @@ fn run_case(seed: u64, idx: u64, _tier: Tier, out: &mut CaseOut) {
     let mut p = Profile::full().no_tables().no_pre();
     p.max_depth = 5;
     p.id_permille = 30;
-    let doc = gen_doc(&mut rng, &p);
+    p.edge_space = rng.chance(1, 2);
+    // adjacent words of wide characters (CJK has its own line-break conventions; here a
+    // collapsible run is a space whatever it contains)
+    if rng.chance(1, 4) {
+        p.wide_permille = 700;
+    }
+    let mut doc = gen_doc(&mut rng, &p);
+    if rng.chance(1, 5) {
+        // words made of wide characters only, so that a collapsible run sits between two
+        // wide characters
+        let n = rng.range(2, 8);
+        let mut kids = Vec::new();
+        for i in 0..n {
+            if i > 0 {
+                kids.push(ast::Node::Space);
+            }
+            let len = rng.range(1, 3);
+            let w: String = (0..len).map(|_| *rng.pick(&crate::textutil::WIDE)).collect();
+            kids.push(ast::Node::Word(w));
+        }
+        let at = rng.below(doc.len() + 1);
+        doc.insert(at, ast::El::with(*rng.pick(&["p", "div", "blockquote"]), kids).node());
+        out.inc("docs_with_wide_only_words");
+    }
     if ast::has_tag(&doc, "s") || ast::has_tag(&doc, "del") {
         out.inc("docs_with_strikeout");
     }
